@@ -38,6 +38,16 @@ package rapid
 //@ event EvInitReport = call interop.(EventsAPI).SendInitReport
 //@ event EvExtensionInit = call interop.(EventsAPI).SendExtensionInit
 //@ event AgentsInfoRead = ret core.(RegistrationService).AgentsInfo
+//@ event FirstFatalLookup = ret rapid.getFirstFatalError
+// the same events, split by the phase tag they carry
+//@ event EvInitStartTaggedInit = call interop.(EventsAPI).SendInitStart when a1.Phase == telemetry.InitInsideInitPhase
+//@ event EvInitStartTaggedInvoke = call interop.(EventsAPI).SendInitStart when a1.Phase == telemetry.InitInsideInvokePhase
+//@ event EvInitRuntimeDoneTaggedInit = call interop.(EventsAPI).SendInitRuntimeDone when a1.Phase == telemetry.InitInsideInitPhase
+//@ event EvInitRuntimeDoneTaggedInvoke = call interop.(EventsAPI).SendInitRuntimeDone when a1.Phase == telemetry.InitInsideInvokePhase
+//@ event EvInitReportTaggedInit = call interop.(EventsAPI).SendInitReport when a1.Phase == telemetry.InitInsideInitPhase
+//@ event EvInitReportTaggedInvoke = call interop.(EventsAPI).SendInitReport when a1.Phase == telemetry.InitInsideInvokePhase
+//@ spec isInit(phase interop.LifecyclePhase) int = ite(phase == interop.LifecyclePhaseInit, 1, 0)
+//@ spec isInvoke(phase interop.LifecyclePhase) int = ite(phase == interop.LifecyclePhaseInvoke, 1, 0)
 
 //@ func agentLaunchError
 //@   requires agent != nil
@@ -64,17 +74,28 @@ package rapid
 //@ func sendInitStartLogEvent
 //@   requires execCtx != nil && validPhase(phase)
 //@   ensures [one-init-start] delta(EvInitStart) == 1 && delta(EvInitReport) == 0 && delta(EvInitRuntimeDone) == 0 && delta(EvExtensionInit) == 0
+//@   ensures [tagged-with-phase] delta(EvInitStartTaggedInit) == isInit(phase) && delta(EvInitStartTaggedInvoke) == isInvoke(phase)
 //@ func sendInitReportLogEvent
 //@   requires execCtx != nil && validPhase(phase)
 //@   ensures [one-init-report] delta(EvInitReport) == 1 && delta(EvInitStart) == 0 && delta(EvInitRuntimeDone) == 0 && delta(EvExtensionInit) == 0
+//@   ensures [tagged-with-phase] delta(EvInitReportTaggedInit) == isInit(phase) && delta(EvInitReportTaggedInvoke) == isInvoke(phase)
 //@ func getFirstFatalError
 //@   requires execCtx != nil
+//@   modifies nothing
+//@   ensures [no-error-type-on-success] status == telemetry.RuntimeDoneSuccess ==> r0 == nil
+//@   ensures [first-fault-on-error] status != telemetry.RuntimeDoneSuccess ==> r0 != nil && (has(ctxOf(execCtx.appCtx).m, appctx.AppCtxFirstFatalErrorKey) ==> iface(as(deref(r0), fatalerror.ErrorType)) == ctxOf(execCtx.appCtx).m[appctx.AppCtxFirstFatalErrorKey]) && (!has(ctxOf(execCtx.appCtx).m, appctx.AppCtxFirstFatalErrorKey) ==> deref(r0) == "Runtime.Unknown")
 //@ func sendInitRuntimeDoneLogEvent
 //@   requires execCtx != nil && validPhase(phase)
 //@   ensures [one-runtime-done-with-status] delta(EvInitRuntimeDone) == 1 && delta(EvInitRuntimeDoneSuccess) == ite(status == telemetry.RuntimeDoneSuccess, 1, 0) && delta(EvInitStart) == 0 && delta(EvInitReport) == 0 && delta(EvExtensionInit) == 0
+//@   ensures [tagged-with-phase] delta(EvInitRuntimeDoneTaggedInit) == isInit(phase) && delta(EvInitRuntimeDoneTaggedInvoke) == isInvoke(phase)
+//@   ensures [carries-status] lastarg(EvInitRuntimeDone, 1).Status == status
+//@   ensures [carries-first-fault-lookup] delta(FirstFatalLookup) == 1 && lastarg(EvInitRuntimeDone, 1).ErrorType == lastret(FirstFatalLookup) && first(FirstFatalLookup) < first(EvInitRuntimeDone)
+//@   ensures [error-type-is-first-fault] lastarg(EvInitRuntimeDone, 1).ErrorType == nil <==> status == telemetry.RuntimeDoneSuccess
+//@   ensures [error-type-is-first-fault-value] status != telemetry.RuntimeDoneSuccess && has(ctxOf(execCtx.appCtx).m, appctx.AppCtxFirstFatalErrorKey) ==> iface(as(deref(lastarg(EvInitRuntimeDone, 1).ErrorType), fatalerror.ErrorType)) == ctxOf(execCtx.appCtx).m[appctx.AppCtxFirstFatalErrorKey]
 //@ func logAgentsInitStatus
 //@   requires execCtx != nil
 //@   ensures [one-line-per-known-extension] delta(AgentsInfoRead) == 1 && delta(EvExtensionInit) == len(lastret(AgentsInfoRead)) && delta(EvInitStart) == 0 && delta(EvInitReport) == 0 && delta(EvInitRuntimeDone) == 0
+//@   loop range execCtx.registrationService.AgentsInfo(): invariant [line-reports-the-element] rangeindex >= 0 ==> lastarg(EvExtensionInit, 1).AgentName == lastret(AgentsInfoRead)[rangeindex].Name && lastarg(EvExtensionInit, 1).State == lastret(AgentsInfoRead)[rangeindex].State && lastarg(EvExtensionInit, 1).ErrorType == lastret(AgentsInfoRead)[rangeindex].ErrorType && lastarg(EvExtensionInit, 1).Subscriptions == lastret(AgentsInfoRead)[rangeindex].Subscriptions
 //@   loop range execCtx.registrationService.AgentsInfo(): invariant delta(AgentsInfoRead) == 1 && delta(EvExtensionInit) == rangeindex + 1 && 0 <= rangeindex + 1 && rangeindex + 1 <= len(lastret(AgentsInfoRead)) && delta(EvInitStart) == 0 && delta(EvInitReport) == 0 && delta(EvInitRuntimeDone) == 0
 
 //@ func doRuntimeDomainInit$1
@@ -82,6 +103,8 @@ package rapid
 //@   ensures [status-lines-only] delta(EvInitStart) == 0 && delta(EvInitReport) == 0 && delta(EvInitRuntimeDone) == 0
 //@ func doRuntimeDomainInit$2
 //@   requires execCtx != nil && validPhase(phase)
+//@   ensures [tagged-with-phase] delta(EvInitRuntimeDoneTaggedInit) == isInit(phase) && delta(EvInitRuntimeDoneTaggedInvoke) == isInvoke(phase)
+//@   ensures [carries-recorded-status] lastarg(EvInitRuntimeDone, 1).Status == old(runtimeDoneStatus) && (lastarg(EvInitRuntimeDone, 1).ErrorType == nil <==> old(runtimeDoneStatus) == telemetry.RuntimeDoneSuccess)
 //@   ensures [reports-recorded-status] delta(EvInitRuntimeDone) == 1 && delta(EvInitRuntimeDoneSuccess) == ite(old(runtimeDoneStatus) == telemetry.RuntimeDoneSuccess, 1, 0) && delta(EvInitStart) == 0 && delta(EvInitReport) == 0 && delta(EvExtensionInit) == 0
 
 //@ func newShutdownContext
@@ -104,4 +127,6 @@ package rapid
 //@   ensures [at-most-one-runtime] delta(ExecRuntime) <= 1 && delta(InitExtensions) <= 1
 //@   ensures [completion-order] r0 == nil ==> execCtx.initDone && delta(ExecRuntime) == 1 && delta(AwaitRestoreReadyOK) == 1 && delta(RegistrationTurnOff) == 1 && first(ExecRuntime) < first(AwaitRestoreReady) && last(AwaitRestoreReadyOK) < first(RegistrationTurnOff)
 //@   ensures [ready-count-is-registered-count] r0 == nil && delta(SetInitAgentsCount) >= 1 ==> delta(SetInitAgentsCount) == 1 && delta(RegisteredSize) == 1 && lastarg(SetInitAgentsCount, 1) == lastret(RegisteredSize) && first(RegistrationTurnOff) < first(SetInitAgentsCount) && delta(AwaitInitAgentsReadyOK) == 1 && first(SetInitAgentsCount) < first(AwaitInitAgentsReady)
+//@   ensures [tagged-with-phase] delta(EvInitStartTaggedInit) == isInit(phase) && delta(EvInitStartTaggedInvoke) == isInvoke(phase) && delta(EvInitReportTaggedInit) == isInit(phase) && delta(EvInitReportTaggedInvoke) == isInvoke(phase) && delta(EvInitRuntimeDoneTaggedInit) == isInit(phase) * delta(EvInitRuntimeDone) && delta(EvInitRuntimeDoneTaggedInvoke) == isInvoke(phase) * delta(EvInitRuntimeDone)
+//@   ensures [error-status-has-a-type] delta(EvInitRuntimeDone) == 1 ==> (lastarg(EvInitRuntimeDone, 1).ErrorType == nil <==> delta(EvInitRuntimeDoneSuccess) == 1)
 //@   ensures [generation-bumped] execCtx.runtimeDomainGeneration == (old(execCtx.runtimeDomainGeneration) + 1) % 4294967296
